@@ -265,7 +265,8 @@ def riemann_states(draw, equal_gamma=None, allow_boost=True, min_pstar=1e-6):
     elif target == 'MIX':
         ur = u_lo + f * (u_hi - u_lo)
     else:
-        ur = u_hi + f * 0.8 * (u_vac - u_hi)
+        # (the general-EOS solver is only driven with p* >= 0.05 max p, see below: a weaker double rarefaction keeps that pattern represented)
+        ur = u_hi + f * (0.8 if min_pstar < 1e-3 else 0.3) * (u_vac - u_hi)
     w = riemann_wave_speeds(pl, rl, ul, gl, pr, rr, ur, gr)
     assume(w is not None)
     pat, ps, us, sp, rxl, rxr = w
@@ -529,7 +530,7 @@ def unit_vec(draw, dim):
 def ken1_params(draw):
     g = draw(st.sampled_from([2, 3]))
     return dict(geometry=g, D=draw(pos(1.0)), x_d=[draw(uni(-5.0, 5.0)) for _ in range(g)],
-                t_d=draw(st.one_of(st.just(0.0), uni(-2.0, 2.0), st.integers(-2, 3))))       # (an integer is a legitimate number too)
+                t_d=draw(st.one_of(st.just(0.0), uni(-2.0, 2.0))))
 
 
 @st.composite
@@ -568,7 +569,7 @@ def dsdcyl_params(draw):
     a1 = draw(st.one_of(st.just(0.0), uni(0.0, 0.9))) * D1 * r1
     a2 = draw(st.one_of(st.just(0.0), uni(0.0, 0.9))) * D2 * r2
     return dict(r_1=r1, r_2=r2, D_CJ_1=D1, D_CJ_2=D2, alpha_1=a1, alpha_2=a2,
-                t_d=draw(st.one_of(st.just(0.0), uni(-2.0, 2.0))))
+                t_d=draw(st.one_of(st.just(0.0), uni(-2.0, 2.0), st.integers(-2, 3))))       # (an integer is a legitimate number too)
 
 
 # ---------------------------------------------------------------- heat conduction: rod family
